@@ -3,40 +3,52 @@ From Coq Require Import ZArith List Bool Arith Lia.
 From EN Require Import Conc.CancelScope.
 Import ListNotations.
 
-(* the while loop of __uncancel_task never leaves calls behind when it returns False *)
-Lemma uncancel_loop_false : forall calls cnt hostc fl c' cnt' fl',
-  uncancel_loop calls cnt hostc fl = (c', cnt', fl', false) -> c' = 0.
+(* the while loop of __uncancel_task: every turn either decrements cancelling() or hits the floor *)
+Lemma uncancel_loop_spec : forall calls cnt hostc fl c' cnt' fl' hit,
+  uncancel_loop calls cnt hostc fl = (c', cnt', fl', hit) ->
+  c' <= calls /\ fl <= fl' /\ cnt' + (calls - c') = cnt + (fl' - fl) /\ (hit = false -> c' = 0).
 Proof.
-  induction calls as [|c IH]; intros cnt hostc fl c' cnt' fl' H; simpl in H.
-  - inversion H; reflexivity.
+  induction calls as [|c IH]; intros cnt hostc fl c' cnt' fl' hit H; simpl in H.
+  - inversion H; subst. repeat split; lia.
   - destruct cnt as [|n].
-    + destruct (0 <=? hostc) eqn:E; [inversion H|]. eapply IH; eauto.
-    + destruct (n <=? hostc) eqn:E; [inversion H|]. eapply IH; eauto.
+    + destruct (0 <=? hostc) eqn:E.
+      * inversion H; subst. repeat split; try lia; try discriminate.
+      * apply IH in H. destruct H as (A & B & C & D). repeat split; try lia; try exact D.
+    + destruct (n <=? hostc) eqn:E.
+      * inversion H; subst. repeat split; try lia; try discriminate.
+      * apply IH in H. destruct H as (A & B & C & D). repeat split; try lia; try exact D.
 Qed.
 
-(* __exit__ returns True only if cancel() had been called on that very scope *)
-Lemma scope_exit_true_called : forall st k exc st' sw,
-  scope_exit st k exc = (st', sw) -> sw = true ->
-  s_called (get_scope st k) = true \/ s_caught (get_scope st k) = true.
+Lemma exit_called_caught : forall st k s exc, s_caught s = false ->
+  snd (exit_called st k s exc) = true -> exists m, exc = Some (ECancel m).
 Proof.
-  intros st k exc st' sw H Hsw. unfold scope_exit in H.
-  destruct (s_called (get_scope st k)) eqn:Ec; [left; reflexivity|].
-  right. inversion H; subst. assumption.
+  intros st k s exc Hc H. unfold exit_called in H.
+  destruct exc as [[m| |]|]; simpl in H; try congruence. eauto.
 Qed.
 
-(* ... and, when the scope has never "caught" before (true of every scope that is still entered, see C13_inv),
-   only when it was given a CancelledError *)
+(* __exit__ returns True only if cancel() had been called on that very scope, and -- when the scope has never
+   "caught" before (true of every scope that is still entered, see C13_inv) -- only for a CancelledError *)
 Lemma scope_exit_true_cancelled : forall st k exc st' sw,
   scope_exit st k exc = (st', sw) -> sw = true -> s_caught (get_scope st k) = false ->
   s_called (get_scope st k) = true /\ exists m, exc = Some (ECancel m).
 Proof.
   intros st k exc st' sw H Hsw Hc. unfold scope_exit in H.
+  destruct (negb (s_host (get_scope st k))); [inversion H; congruence|].
   destruct (s_called (get_scope st k)) eqn:Ec.
-  - split; [reflexivity|].
-    destruct exc as [[m| |]|].
-    + eauto.
-    + destruct (delayed _) as [[h m']|]; [destruct (msg_eqb m' (Some k))|]; inversion H; subst; discriminate.
-    + destruct (delayed _) as [[h m']|]; [destruct (msg_eqb m' (Some k))|]; inversion H; subst; discriminate.
-    + destruct (delayed _) as [[h m']|]; [destruct (msg_eqb m' (Some k))|]; inversion H; subst; congruence.
-  - inversion H; subst. congruence.
+  - split; [reflexivity|]. inversion H as [[H1 H2]]. subst sw.
+    eapply exit_called_caught; eauto.
+  - inversion H as [[H1 H2]]. simpl in H2. congruence.
+Qed.
+
+(* the value __exit__ returns is the scope's cancelled_caught() *)
+Lemma scope_exit_returns_caught : forall st k exc st' sw,
+  scope_exit st k exc = (st', sw) -> s_host (get_scope st k) = true ->
+  sw = (if s_called (get_scope st k) then snd (exit_called
+          (set_sstack (cancel_ohandle (cancel_ohandle st (s_th (get_scope st k))) (s_ch (get_scope st k)))
+                      (tl (sstack (cancel_ohandle (cancel_ohandle st (s_th (get_scope st k))) (s_ch (get_scope st k))))))
+          k (get_scope st k) exc)
+        else s_caught (get_scope st k)).
+Proof.
+  intros st k exc st' sw H Hh. unfold scope_exit in H. rewrite Hh in H. simpl in H.
+  destruct (s_called (get_scope st k)); inversion H; reflexivity.
 Qed.
